@@ -516,6 +516,7 @@ Proof.
     cbn [negb]; [|rej_with Hrej].
   apply andb_true_iff in E3 as [E3 E3t]. apply andb_true_iff in E3 as [E3h E3r].
   apply Z.eqb_eq in E3h, E3r. apply N.eqb_eq in E3t.
+  destruct (Z.of_nat (length (vs_vals vs)) <=? v_index v) eqn:E4b; [rej_with Hrej|].
   destruct (nth_error (vs_vals vs) (Z.to_nat (v_index v))) as [[addr pow]|] eqn:E4; [|rej_with Hrej].
   rewrite <- E2.
   destruct (bytes_eqb (v_addr v) addr) eqn:E5; cbn [negb]; [|rej_with Hrej].
@@ -657,6 +658,7 @@ Proof.
   destruct (v_index v <? 0); [injection Hav as E _ _; rewrite <- E; exact Hm|].
   destruct (v_addr v); [injection Hav as E _ _; rewrite <- E; exact Hm|].
   destruct (negb _); [injection Hav as E _ _; rewrite <- E; exact Hm|].
+  destruct (_ <=? v_index v); [injection Hav as E _ _; rewrite <- E; exact Hm|].
   destruct (nth_error _ _) as [[addr pow]|]; [|injection Hav as E _ _; rewrite <- E; exact Hm].
   destruct (negb _); [injection Hav as E _ _; rewrite <- E; exact Hm|].
   destruct (get_vote _ _ _); [destruct (bytes_eqb _ _); injection Hav as E _ _; rewrite <- E; exact Hm|].
@@ -931,7 +933,9 @@ Proof.
   unfold add_vote in Hav.
   replace (v_index v <? 0) with false in Hav by (symmetry; apply Z.ltb_ge; exact V1).
   destruct (v_addr v) as [|a0 ar] eqn:Ea; [contradiction|]. rewrite <- Ea in *.
-  rewrite A, B, C, D, V2, V4, V5, V6, !Z.eqb_refl, N.eqb_refl, bytes_eqb_refl, Hget, V7 in Hav. cbn [negb andb] in Hav.
+  assert (Hlt : (Z.of_nat (length vals) <=? v_index v) = false).
+  { apply Z.leb_gt. assert (Z.to_nat (v_index v) < length vals)%nat by (apply nth_error_Some; rewrite V2; discriminate). lia. }
+  rewrite A, B, C, D, Hlt, V2, V4, V5, V6, !Z.eqb_refl, N.eqb_refl, bytes_eqb_refl, Hget, V7 in Hav. cbn [negb andb] in Hav.
   unfold add_verified, nth_vote in Hav. rewrite Hex in Hav.
   destruct (bid_eqb (v_bid ex) (v_bid v)) eqn:Eb; [apply bid_eqb_eq in Eb; contradiction|].
   destruct (lookup (bid_key (v_bid v)) (vs_byblock vs)) as [bv|]; [destruct (bv_peer bv)|].
